@@ -283,6 +283,17 @@ func (r *roleBase) UnmarshalYAML(unmarshal func(interface{}) error) (err error) 
 	}
 	err = unmarshal(&role)
 	if err == nil {
+		// an empty `defaults:`, `vars:` block is a YAML null, which the decoder turns into a nil map: the role
+		// must keep a map of its own, otherwise it cannot be linked to its parent's values
+		if role.Defaults == nil {
+			role.Defaults = gera.MakeMap[string, string]().WithUnmarshalYAML(kvStoreUnmarshalYAMLWithTags)
+		}
+		if role.Vars == nil {
+			role.Vars = gera.MakeMap[string, string]().WithUnmarshalYAML(kvStoreUnmarshalYAMLWithTags)
+		}
+		if role.UserVars == nil {
+			role.UserVars = gera.MakeMap[string, string]().WithUnmarshalYAML(kvStoreUnmarshalYAMLWithTags)
+		}
 		*r = roleBase(role)
 	}
 	return
